@@ -133,8 +133,17 @@ fn map_parop<T: El + Send + Sync>(w: &mut MapWorld<T>, op: usize) -> VResult<u64
         }
         9 | 11 => {
             let n = w.next_key;
+            // fresh keys, keys already in the map, and keys that occur several times in the input
+            // with different values (the last one must win, whatever the split schedule)
             let mut items: Vec<(u32, u32)> = (n..n + 20).map(|k| (k, 1)).collect();
             items.extend(want.iter().take(5).map(|&(k, v)| (k, (v + 1) % 3)));
+            for round in 0..3u32 {
+                items.insert((round as usize * 7) % items.len(), (n + 3, round));
+                items.push((n + 1, (round + 2) % 3));
+                if let Some(&(k, _)) = want.first() {
+                    items.insert(items.len() / 2, (k, round));
+                }
+            }
             let mut seq = w.m.clone();
             seq.extend(items.iter().map(|&(k, v)| (T::mk(k, true), T::mk(v, false))));
             if op == 9 {
@@ -156,14 +165,23 @@ fn map_parop<T: El + Send + Sync>(w: &mut MapWorld<T>, op: usize) -> VResult<u64
         }
         _ => {
             gmc::hasher::set_default_hb(w.cfg.hk, w.cfg.seed);
-            let v: Vec<(T, T)> = want.iter().map(|&(k, v)| (T::mk(k, true), T::mk(v, false))).collect();
+            // the map's own pairs, each key preceded by two stale values: the last occurrence wins
+            let mut input: Vec<(u32, u32)> = vec![];
+            for &(k, v) in &want {
+                input.push((k, (v + 1) % 3));
+            }
+            for &(k, v) in want.iter().rev() {
+                input.push((k, (v + 2) % 3));
+            }
+            input.extend(want.iter().copied());
+            let v: Vec<(T, T)> = input.iter().map(|&(k, v)| (T::mk(k, true), T::mk(v, false))).collect();
             let built: griddle::HashMap<T, T, gmc::hasher::HB> = v.into_par_iter().collect();
             if built != w.m || w.m != built {
-                bail!("from_par_iter builds a map different from its input");
+                bail!("from_par_iter builds a map different from the sequential collect of the same input (duplicate keys: last value wins)");
             }
             let got = sorted(built.iter().map(|(k, v)| (k.id(), v.id())).collect::<Vec<_>>());
             if got != want {
-                bail!("from_par_iter builds {:?} from {:?}", got, want);
+                bail!("from_par_iter builds {:?}, sequential collect gives {:?}", got, want);
             }
         }
     }
